@@ -87,4 +87,136 @@ theorem mapM_reverse_involutive (tbl : List (String × String))
     rw [this] at a
     exact (Option.some.inj a).symm
 
+
+/-! generic list lemmas -/
+theorem findSome?_filterMap' {α β γ} (f : α → Option β) (g : β → Option γ) (l : List α) :
+    (l.filterMap f).findSome? g = l.findSome? (fun a => (f a).bind g) := by
+  induction l with
+  | nil => rfl
+  | cons a l ih =>
+    cases h : f a with
+    | none => simp [h, ih]
+    | some b => simp [h, ih, List.findSome?_cons]
+
+theorem find?_map_range {α} (p : α → Bool) (g : Nat → α) (m i0 : Nat) (h0 : i0 < m)
+    (hp : p (g i0) = true) (hnot : ∀ i, i < i0 → p (g i) = false) :
+    ((List.range m).map g).find? p = some (g i0) := by
+  rw [List.find?_eq_some_iff_getElem]
+  refine ⟨hp, i0, by simpa using h0, by simp, ?_⟩
+  intro j hj
+  simp [hnot j hj]
+
+theorem find?_map_range_none {α} (p : α → Bool) (g : Nat → α) (m : Nat)
+    (hnot : ∀ i, i < m → p (g i) = false) :
+    ((List.range m).map g).find? p = none := by
+  rw [List.find?_eq_none]
+  intro x hx
+  simp at hx
+  obtain ⟨i, hi, rfl⟩ := hx
+  simp [hnot i hi]
+
+theorem findSome?_map_range {α β} (f : α → Option β) (g : Nat → α) (m i0 : Nat) (x : β) (h0 : i0 < m)
+    (hp : f (g i0) = some x) (hnot : ∀ i, i < i0 → f (g i) = none) :
+    ((List.range m).map g).findSome? f = some x := by
+  induction m with
+  | zero => omega
+  | succ m ih =>
+    rw [List.range_succ, List.map_append, List.findSome?_append]
+    by_cases h : i0 < m
+    · rw [ih h]; rfl
+    · have : i0 = m := by omega
+      subst this
+      have : ((List.range i0).map g).findSome? f = none := by
+        rw [List.findSome?_eq_none_iff]
+        intro y hy
+        simp at hy
+        obtain ⟨i, hi, rfl⟩ := hy
+        exact hnot i hi
+      rw [this]; simp [hp]
+
+theorem findSome?_map_range_none {α β} (f : α → Option β) (g : Nat → α) (m : Nat)
+    (hnot : ∀ i, i < m → f (g i) = none) :
+    ((List.range m).map g).findSome? f = none := by
+  rw [List.findSome?_eq_none_iff]
+  intro y hy
+  simp at hy
+  obtain ⟨i, hi, rfl⟩ := hy
+  exact hnot i hi
+
+theorem find?_key (l : List RNode) (k : Nat) (hk : k < l.length)
+    (hkeys : ∀ i (h : i < l.length), (l[i]).key = i) :
+    l.find? (fun n => n.key == k) = some l[k] := by
+  rw [List.find?_eq_some_iff_getElem]
+  refine ⟨by simp [hkeys k hk], k, hk, rfl, ?_⟩
+  intro j hj
+  have := hkeys j (by omega)
+  simp [this]; omega
+
+/-! attribute dictionaries -/
+theorem Attrs.set_not_mem (a : Attrs) (k v : String) (h : k ∉ a.map (·.1)) :
+    Attrs.set a k v = a ++ [(k, v)] := by
+  induction a with
+  | nil => rfl
+  | cons x a ih =>
+    obtain ⟨k', v'⟩ := x
+    simp at h
+    have h1 : ¬ k' = k := fun e => h.1 e.symm
+    simp [Attrs.set, h1]
+    apply ih; simpa using h.2
+
+theorem Attrs.update_append_nodup (d a : Attrs) (h : (d.map (·.1) ++ a.map (·.1)).Nodup) :
+    Attrs.update d a = d ++ a := by
+  induction a generalizing d with
+  | nil => simp [Attrs.update]
+  | cons x a ih =>
+    obtain ⟨k, v⟩ := x
+    have hk : k ∉ d.map (·.1) := by
+      intro hm
+      rw [List.nodup_append] at h
+      exact h.2.2 k hm k (by simp) rfl
+    unfold Attrs.update
+    simp only [List.foldl_cons]
+    rw [Attrs.set_not_mem d k v hk]
+    have := ih (d ++ [(k, v)]) (by simpa [List.append_assoc] using h)
+    unfold Attrs.update at this
+    rw [this]; simp
+
+theorem normAttrs_nodup (a : Attrs) (h : (a.map (·.1)).Nodup) : normAttrs a = a := by
+  unfold normAttrs
+  simpa using Attrs.update_append_nodup [] a (by simpa using h)
+
+theorem Attrs.set_mem_pair (a : Attrs) (k v : String) (h : (k, v) ∈ a) (hn : (a.map (·.1)).Nodup) :
+    Attrs.set a k v = a := by
+  induction a with
+  | nil => simp at h
+  | cons x a ih =>
+    obtain ⟨k', v'⟩ := x
+    simp only [Attrs.set]
+    by_cases hk : k' = k
+    · subst hk
+      simp
+      simp at h hn
+      rcases h with h | h
+      · exact h
+      · exact absurd h (hn.1 v)
+    · simp [hk]
+      simp at h hn
+      rcases h with h | h
+      · exact absurd h.1.symm hk
+      · exact ih h hn.2
+
+theorem Attrs.update_sub (d a : Attrs) (hd : (d.map (·.1)).Nodup) (h : ∀ x ∈ a, x ∈ d) :
+    Attrs.update d a = d := by
+  induction a with
+  | nil => rfl
+  | cons x a ih =>
+    obtain ⟨k, v⟩ := x
+    unfold Attrs.update
+    simp only [List.foldl_cons]
+    rw [Attrs.set_mem_pair d k v (h _ (by simp)) hd]
+    exact ih (fun x hx => h x (by simp [hx]))
+
+theorem Attrs.update_self (a : Attrs) (h : (a.map (·.1)).Nodup) : Attrs.update a a = a :=
+  Attrs.update_sub a a h (fun _ hx => hx)
+
 end PolyplyVerif.Proofs.Dna
